@@ -280,8 +280,31 @@ def split(ctx, rng, xr):
     f = x.freq.values.astype("float64")
     th = x.dir.values.astype("float64")
     ths = np.sort(th)
-    kind = str(rng.choice(["nodes", "between", "between", "narrow", "fmin_only", "fmax_only", "with_dir"]))
+    kind = str(rng.choice(["nodes", "between", "between", "narrow", "fmin_only", "fmax_only", "with_dir", "dir_only", "dmin_only", "dmax_only", "with_dmax"]))
     fmin = fmax = dmin = dmax = None
+    if kind in ("dir_only", "dmin_only", "dmax_only", "with_dmax") and rng.random() < 0.4:
+        # the same circle labelled -180..180: limits are taken on the labels
+        th = (th + 180.0) % 360.0 - 180.0
+        x = x.assign_coords(dir=th.astype(x.dir.dtype))
+        th = x.dir.values.astype("float64")
+        ths = np.sort(th)
+        stored += "+signed-labels"
+
+    def dlim():
+        u = rng.random()
+        if u < 0.35 and ths[0] <= 0.0 <= ths[-1]:
+            return 0.0                                   # a limit of exactly zero is a limit
+        if u < 0.6:
+            return float(ths[int(rng.integers(len(ths)))])
+        return float(rng.uniform(ths[0] - 5, ths[-1] + 5))
+    if kind == "dir_only":
+        dmin, dmax = sorted([dlim(), dlim()])
+    elif kind == "dmin_only":
+        dmin = dlim()
+    elif kind in ("dmax_only", "with_dmax"):
+        dmax = dlim()
+        if kind == "with_dmax":
+            fmax = float(rng.uniform(f[0] * 1.001, f[-1] * 0.999))
     if kind == "nodes":
         i, j = sorted(rng.choice(len(f), 2, replace=False))
         fmin, fmax = float(f[i]), float(f[j])
@@ -296,13 +319,16 @@ def split(ctx, rng, xr):
         fmin, fmax = float(f[i] + 0.3 * w), float(f[i] + 0.7 * w)    # no grid frequency inside the band
     elif kind == "fmin_only":
         fmin = float(rng.uniform(f[0] * 1.001, f[-1] * 0.999))
-    else:
+    elif kind == "fmax_only":
         fmax = float(rng.uniform(f[0] * 1.001, f[-1] * 0.999))
     if fmin is not None and fmax is not None and fmax <= fmin:
         return
-    if dmin is not None and dmax <= dmin:
+    if dmin is not None and dmax is not None and dmax <= dmin:
         return
     key = "split|%s|%s|%s|lead=%d" % (kind, stored, dt, len(lnames))
+    if 0.0 in (dmin, dmax):
+        key += "|zero-limit"
+        rec.note("split_direction_limit_exactly_zero")
     kw = {k: v for k, v in (("fmin", fmin), ("fmax", fmax), ("dmin", dmin), ("dmax", dmax)) if v is not None}
     try:
         r = x.spec.split(**kw)
@@ -323,13 +349,16 @@ def split(ctx, rng, xr):
     if fmax is not None and (not len(nodes) or abs(nodes[-1] - fmax) > 1e-10):
         want_f = want_f + [fmax]
     want_f = np.array(want_f)
-    want_d = ths[(ths >= dmin) & (ths <= dmax)] if dmin is not None else None
+    want_d = None
+    if dmin is not None or dmax is not None:
+        want_d = ths[(ths >= (dmin if dmin is not None else -np.inf)) & (ths <= (dmax if dmax is not None else np.inf))]
     fo = r.freq.values.astype("float64")
     if fo.shape != want_f.shape or np.max(np.abs(fo - want_f)) > 1e-12:
         rec.bad("split", key, dict(kw, freq=f, freq_out=fo, freq_want=want_f), "split-output-frequencies")
         return
     if want_d is not None and not np.array_equal(r.dir.values.astype("float64"), want_d):
-        rec.bad("split", key, dict(kw, dir=th, dir_out=r.dir.values, dir_want=want_d), "split-output-directions")
+        zero_ignored = 0.0 in (dmin, dmax) and np.array_equal(r.dir.values.astype("float64"), th)
+        rec.bad("split", key, dict(kw, dir=th, dir_out=r.dir.values, dir_want=want_d), "direction-limit-of-zero-ignored" if zero_ignored else "split-output-directions")
         return
     dsel = th if want_d is None else want_d
     if len(dsel) == 0:
